@@ -211,7 +211,10 @@ Section InheritProofs.
 
   (* AbstractStructure *)
   Theorem abstract_not_instantiable k : In n_Abstract (k_bases k) -> instantiable k = Raise TypeError.
-  Proof. intro H. unfold instantiable. apply str_in_In in H. rewrite H. reflexivity. Qed.
+  Proof. intro H. unfold instantiable. apply str_in_In in H. rewrite H, orb_true_r. reflexivity. Qed.
+
+  Theorem abstract_itself_not_instantiable k : k_name k = n_Abstract -> instantiable k = Raise TypeError.
+  Proof. intro H. unfold instantiable. rewrite H, pystr_eqb_refl. reflexivity. Qed.
 
   (* ---------------------------------------------------------------- fields are inherited *)
 
